@@ -10,7 +10,7 @@
 //	verifhook.Yield("sync.enter")         after it (the simulator counts: no task switch while a lock is held)
 //	verifhook.Yield("sync.exit")          before a statement that calls x.Unlock() / x.RUnlock() (also deferred ones)
 //	verifhook.Yield("sync.atomic", line)  before a statement that calls atomic.* or an atomic-looking method
-//	verifhook.Yield("sync.wait", line)    before x.Wait() / once.Do(...) (Do is bracketed by enter/exit)
+//	verifhook.Yield("sync.wait", line)    before x.Wait(); once.Do(func…) is bracketed by enter/exit only
 //	verifhook.Yield("chan.op", line)      before a statement with a channel send / receive / select; a send is followed by
 //	                                      "sync.enter", a receive preceded by "sync.exit" (a channel used as a semaphore)
 //	verifhook.Yield("go.stmt", line)      before and after a go statement
@@ -223,7 +223,10 @@ func (rw *rewriter) list(in []ast.Stmt) []ast.Stmt {
 			pre = append(pre, yieldStmt("sync.wait", ln))
 		}
 		if k.once {
-			pre = append(pre, yieldStmt("sync.wait", ln), yieldStmt("sync.enter", 0))
+			// no task switch in front of once.Do: after the first call it is a no-op that hot paths make per character,
+			// and a switch point per call multiplies the scheduler steps of a run by thousands. The bracket stays: a
+			// task is never parked inside the function Do runs (the other callers of Do would block for real).
+			pre = append(pre, yieldStmt("sync.enter", 0))
 			post = append(post, yieldStmt("sync.exit", 0))
 		}
 		if k.chanop || isSelect {
